@@ -165,6 +165,25 @@ def tableau(ctx, rng, idx):
                   "tableau/%s/stability-polynomial" % iname, {"gamma": gam, "published": ref}, cls=cls)
     if iname in SSP1:
         ctx.true("ssp", _ssp_ok(A, b, 1.0), "tableau/%s/not-ssp" % iname, {"A": A, "b": b}, cls=cls)
+    # the library's own amplification factor (timemodel.propagator: one real step on dq/dt = z q) is the stability function of the
+    # extracted tableau, R(z) = 1 + z b.(I - zA)^-1.1, for complex z given as an array, a python complex and a numpy scalar
+    zs = (rng.uniform(-3, 1, 6) + 1j * rng.uniform(-3, 3, 6)) * float(rng.choice([1.0, 0.1, 1e-3]))
+    R = np.array([1 + z * (b @ np.linalg.solve(np.eye(s) - z * A, np.ones(s))) for z in zs])
+    solver = gen.integ(iname)(_Mesh(1), None)
+    with probes.quiet():
+        got = [np.asarray(solver.propagator(zs.copy())), np.array([np.asarray(solver.propagator(complex(z))).ravel()[0] for z in zs]), np.array([np.asarray(solver.propagator(np.complex128(z))).ravel()[0] for z in zs])]
+    for form, g in zip(("array", "python complex", "numpy scalar"), got):
+        ctx.close("propagator", float(np.max(np.abs(g - R) / (1 + np.abs(R)))), 1e-12, "tableau/%s/propagator-is-not-the-stability-function-of-the-step" % iname, {"z": zs, "propagator": g, "R(z)": R, "argument": form}, cls=cls)
+    ctx.true("propagator", solver.modeldisc is None, "tableau/%s/propagator-does-not-restore-the-discretisation" % iname, None, cls=cls)
+    if iname in BB and k == 0:
+        try:
+            with probes.quiet():
+                cm = float(np.asarray(solver.cflmax()).ravel()[0])
+        except RuntimeError:
+            cm = None          # "may not converge" (documented)
+        if cm is not None:
+            zz = 1j * cm
+            ctx.close("cflmax", abs(abs(1 + zz * (b @ np.linalg.solve(np.eye(s) - zz * A, np.ones(s)))) - 1.0), 1e-8, "tableau/%s/cflmax-not-on-the-stability-boundary" % iname, {"cflmax": cm}, cls=cls)
     # the coefficients do not depend on how the right-hand side hands its arrays out (work buffer reused, stored arrays)
     for mode in ("buffer", "asis"):
         A2, b2, c2, ncall2, adv2 = extract(iname, dt, t0, returns=mode)
